@@ -145,7 +145,9 @@ func (lf *c18Life) judge(op int, it *c18Item, lk *c18LifeKey, now c18Instant, si
 		switch {
 		case ref != "" && err == nil:
 			sig := "C18:accepted:" + ref
-			if stale && (mode == "primed-check" || mode == "primed-add") {
+			// stale: an older revision admits it, and only the long-lived database
+			// (not a fresh one over the same backstore) accepts it
+			if fresh := map[string]string{"primed-check": "fresh-check", "primed-add": "fresh-add"}[mode]; stale && fresh != "" && errs[fresh] != nil {
 				sig = "C18:accepted:stale-account-key-revision:" + ref
 			}
 			c.Violation(sig, wit(mode, map[string]interface{}{"observed": "accepted", "an_older_revision_of_the_key_would_admit_it": stale}))
